@@ -159,7 +159,7 @@ pub fn run(args: &Args) -> i32 {
   let mut cfg = HistCfg {
     prop, max_roots: 2, bottom_up: true, bu_then: false, bu_pre: false, bu_over_report: false, set_fail: false, crashes: 0,
     depth: 0, state_cap: 0, probe: false, scope_in_key: true,
-    wall_cap: if quick { 45.0 } else { 1500.0 }, collect_digests: false, find_path_hash: None,
+    wall_cap: if quick { 45.0 } else { 2400.0 }, collect_digests: false, find_path_hash: None,
   };
   let mut slice = Slice::Wf;
   let mut map_faulty = false;
@@ -212,10 +212,10 @@ pub fn run(args: &Args) -> i32 {
       if quick { groups[0].depth = 4; }
       // coarse write checkers: only the checker-relative oracles apply there (no from-scratch content comparison)
       groups.push(Group { enums: vec![cw(2, 2, 4)], depth: 4, shapes: false, gen_consumer_only: true, crashes: 0, inject: false, max_roots: None, faulty: false });
-      groups.push(Group { enums: vec![if quick { nw(3, 1, 4) } else { nw(3, 2, 5) }], depth: 4, shapes: false, gen_consumer_only: false, crashes: 0, inject: false, max_roots: None, faulty: false });
+      groups.push(Group { enums: vec![if quick { nw(3, 1, 4) } else { nw(3, 1, 5) }], depth: 4, shapes: false, gen_consumer_only: false, crashes: 0, inject: false, max_roots: None, faulty: false });
       if !quick { groups.push(Group { enums: vec![nw(4, 1, 5)], depth: 4, shapes: false, gen_consumer_only: false, crashes: 0, inject: false, max_roots: None, faulty: false }); }
-      groups.push(Group { enums: vec![if quick { sf(4, 2) } else { sf(4, 3) }], depth: if quick { 4 } else { 5 }, shapes: false, gen_consumer_only: false, crashes: 0, inject: false, max_roots: Some(2), faulty: false });
-      if !quick { groups[0].depth = 5; groups[1].depth = 4; }
+      groups.push(Group { enums: vec![if quick { sf(4, 2) } else { sf(4, 3) }], depth: 4, shapes: false, gen_consumer_only: false, crashes: 0, inject: false, max_roots: Some(2), faulty: false });
+      if !quick { groups[0].depth = 5; groups[1].depth = 4; groups[2].depth = 3; }
     }
     Prop::C05 | Prop::C06 | Prop::C07 | Prop::C20 => {
       slice = Slice::WfOrViol; crash_group = true;
